@@ -6,7 +6,8 @@ PROP = dict(
                    "gives exactly the document value converted to the field type (C17_prefix_exact); the prop shorthand is definitionally the value tag "
                    "${key} with the same arguments (C17_prop_is_value); binding through ${key} equals binding by prefix for every Faithful value "
                    "(C17_value_eq_prefix_partial: plain strings, |int| <= 2^53, booleans, short decimals, JSON-safe lists/maps thereof) and a plain literal "
-                   "is bound as written (C17_literal_partial). The full statements are FALSE of the code (the value path FormatAny -> splice -> ParseAny is "
+                   "is bound as written (C17_literal_partial); a default declared in the placeholder or the shorthand (${key:d}, prop:\"key:d\") plays no part "
+                   "whenever the key is configured with a present value, the zero values 0 / false / 0.0 / \"\" included (C17_default_ignored). The full statements are FALSE of the code (the value path FormatAny -> splice -> ParseAny is "
                    "lossy); one machine-checked counterexample per class (C17_counterexamples) is replayed on the real code on every run and listed as a "
                    "known finding. The model is tied to the real container by a differential run of thousands of value x type pairs per run.",
         level_note="Partial: the value-path theorems carry the decidable hypothesis Faithful / PlainLiteral; encoding/json is a parameter assumed to "
@@ -20,6 +21,9 @@ PROP = dict(
              "plain / number-like / bool-like / quoted / bracketed / punctuation (spaces, commas, colons, braces, quotes, $ #) / unicode / empty, lists, "
              "nested maps; types string int int64 uint float64 bool any *string *int []string []int map[string]any map[string]string nested structs), "
              "20% weakly typed or incompatible pairs, 5% absent key, 5% re-expansion strings; 1 in 8 cases writes a literal in the value tag; "
+             "every sixth case DECLARES A DEFAULT: holder struct{V T `value:\"${k:d}\"`; P T `prop:\"k:d\"`; X T `prefix:\"k\"`} with a type-compatible default d that "
+             "differs from the configured value; half of these configure k with the ZERO VALUE of its kind (false, 0, 0.0, \"\"), the others a generated value, "
+             "a weak pair or no value at all (then only V = P is demanded); a configured key must win over the default (oracle valuepath-defaulted); "
              "about 25% of the cases pre-fill the bound fields with non-zero defaults (the configured value must replace them exactly: oracle prefill-merged); "
              "10% of the holders also carry an optional wire dependency and are started 4 times (oracle start-unstable); "
              "non-trivial = everything except bool->bool; distinct = distinct scenario lines",
